@@ -339,6 +339,37 @@ def r2(ctx: Ctx) -> None:
         ok = any("commonpath" in norm_text(d.ast.value) and "==" in norm_text(d.ast.value) for d in defs) and \
             all(("commonpath" in norm_text(d.ast.value)) or (isinstance(d.ast.value, ast.Constant) and d.ast.value.value is False) for d in defs)  # type: ignore[union-attr]
         ctx.ob("C17.R2", f, "`inside` is the commonpath equality, False on error", defs[0] if defs else None, ok, "")
+    # every return of a sanitiser on the local-backend path is (a) another sanitiser's result or (b) the realpath'ed value
+    # under the inside-test; anything else hands out an unchecked path
+    for q in ("storage_backend.LocalStorageBackend._resolve_path", "data_operations.DataFileManager._get_arrow_path"):
+        f = ctx.fn(q)
+        g = ctx.cfg(f)
+        inside_b = [b for b in g.nodes if b.kind == "branch" and isinstance(b.ast, ast.Name) and b.ast.id == "inside"]
+        local_b = [b for b in g.nodes if b.kind == "branch" and "LocalStorageBackend" in b.text]
+        for r in [n for n in g.nodes if n.kind == "return" and n.id in g.reachable()]:
+            if local_b:
+                t = edge_target(g, local_b[0], "true")
+                if t is None or r.id not in reachable_from(g, t, NORMAL):
+                    continue  # S3 branch / unknown-backend fallback: outside the local-filesystem model
+            v = r.ast.value  # type: ignore[union-attr]
+            ok = False
+            why = norm_text(v) if v is not None else "None"
+            if isinstance(v, ast.Call) and (dotted(v.func) or "").split(".")[-1] in SANITISERS:
+                ok = True
+            elif isinstance(v, ast.Name):
+                defs = ctx.rd(f).reaching(r.id, v.id)
+                canon = bool(defs) and all(isinstance(g.nodes[d].ast, ast.Assign) and "os.path.realpath" in norm_text(g.nodes[d].ast.value)
+                                           for d in defs if d != g.entry) and g.entry not in defs
+                guarded = False
+                for b in inside_b:
+                    t2, f2 = edge_target(g, b, "true"), edge_target(g, b, "false")
+                    if t2 is not None and r.id in reachable_from(g, t2, NORMAL) and (f2 is None or r.id not in reachable_from(g, f2, NORMAL)):
+                        guarded = True
+                ok = canon and guarded
+                why += f" (realpath'ed: {canon}, under the inside-test: {guarded})"
+            ctx.ob("C17.R2", f, "returned path is sanitised", r, ok,
+                   why + ("" if ok else ": a raw / prefix-tested path is returned without realpath + commonpath (.. and symlink "
+                          "components are never resolved)"))
     rp = ctx.fn("storage_backend.LocalStorageBackend._resolve_path")
     g = ctx.cfg(rp)
     joins = ctx.calls(rp, prim="os.path.join")
